@@ -168,10 +168,12 @@ fn run_case(line: &str) -> Option<String> {
         let wf = integ.with_faces();
         let mom2 = wf.compute_cell_integrals::<Moments>();
         let faces2 = wf.compute_face_integrals_with_data::<(), FaceMoments>(&tags);
+        let faces2_sym = wf.compute_face_integrals_sym_with_data::<(), FaceMoments>(&tags);
         out.push_str(&format!(
-            ",\"wf_moments\":[{}],\"wf_faces\":[{}]",
+            ",\"wf_moments\":[{}],\"wf_faces\":[{}],\"wf_faces_sym\":[{}]",
             mom2.iter().map(mj).collect::<Vec<_>>().join(","),
-            faces2.iter().map(fj).collect::<Vec<_>>().join(",")
+            faces2.iter().map(fj).collect::<Vec<_>>().join(","),
+            faces2_sym.iter().map(fj).collect::<Vec<_>>().join(",")
         ));
     }
     Some(out)
